@@ -1587,3 +1587,85 @@ Proof.
     - apply IH; [exact Hn' | intros x Hx; apply Hi; right; exact Hx]. }
   apply G; [exact Hnd | apply incl_refl].
 Qed.
+
+(* ---------- listing the stored columns in another order ---------- *)
+
+(* the same rows under a heading listed in the order q (attribute i of the new heading is attribute q[i]
+   of the old one, its column follows) *)
+Definition permute_cols (q : vproj) (r : relation) : relation :=
+  {| r_attrs := map (fun i => nth i (r_attrs r) []) q;
+     r_p := map (fun i => nth i (r_p r) 0) q;
+     r_rows := r_rows r |}.
+
+Definition is_perm (q : vproj) (n : nat) : Prop := NoDup q /\ length q = n /\ inrange q n.
+
+Lemma nodup_map_nth {X} (l : list X) d q : NoDup l -> NoDup q -> inrange q (length l) -> NoDup (map (fun i => nth i l d) q).
+Proof.
+  intros Hl Hq Hr. induction Hq as [|i q Hi Hq IH]; [constructor|].
+  cbn [map]. constructor.
+  - intros Hin. apply in_map_iff in Hin as (j & E & Hj). apply Hi.
+    assert (i = j); [|subst; exact Hj].
+    apply (proj1 (NoDup_nth l d) Hl); [apply Hr; left; reflexivity | apply Hr; right; exact Hj | symmetry; exact E].
+  - apply IH. intros j Hj. apply Hr. right; exact Hj.
+Qed.
+
+Lemma perm_surj q n i : is_perm q n -> i < n -> In i q.
+Proof.
+  intros (Hnd & Hlen & Hr) Hi.
+  assert (Hincl : incl (seq 0 n) q).
+  { apply NoDup_length_incl; [exact Hnd | rewrite seq_length; lia|]. intros c Hc. apply in_seq. specialize (Hr c Hc). lia. }
+  apply Hincl, in_seq. lia.
+Qed.
+
+Lemma permute_cols_col q r nm c : wf_rel r -> is_perm q (length (r_attrs r)) -> (col (permute_cols q r) nm c <-> col r nm c).
+Proof.
+  intros Hwf Hq. pose proof Hwf as (_ & Hlen & _). pose proof Hq as (_ & _ & Hr). unfold col, permute_cols. cbn [r_attrs r_p]. split.
+  - intros (j & H1 & H2).
+    destruct (nth_error q j) as [i|] eqn:Ej.
+    + rewrite (map_nth_error (fun i => nth i (r_attrs r) []) _ _ Ej) in H1. rewrite (map_nth_error (fun i => nth i (r_p r) 0) _ _ Ej) in H2.
+      injection H1 as <-. injection H2 as <-.
+      assert (Hi : i < length (r_attrs r)) by (apply Hr; eapply nth_error_In, Ej).
+      exists i. split; apply nth_error_nth'; [exact Hi | rewrite Hlen; exact Hi].
+    + apply nth_error_None in Ej. assert (X : nth_error (map (fun i => nth i (r_attrs r) []) q) j = None) by (apply nth_error_None; rewrite map_length; exact Ej). congruence.
+  - intros (i & H1 & H2).
+    assert (Hi : i < length (r_attrs r)) by (apply nth_error_Some; congruence).
+    destruct (In_nth_error _ _ (perm_surj q _ i Hq Hi)) as (j & Ej).
+    exists j. rewrite (map_nth_error (fun i => nth i (r_attrs r) []) _ _ Ej), (map_nth_error (fun i => nth i (r_p r) 0) _ _ Ej).
+    split; f_equal; apply nth_error_nth; assumption.
+Qed.
+
+Theorem permute_cols_same_relation q r : wf_rel r -> is_perm q (length (r_attrs r)) ->
+  wf_rel (permute_cols q r) /\ abs (permute_cols q r) = abs r.
+Proof.
+  intros Hwf Hq. pose proof Hwf as (Hnd & Hlen & Hndp & Hr & Hw & Hndr & Hne). pose proof Hq as (Hqnd & Hqlen & Hqr).
+  assert (Hwf' : wf_rel (permute_cols q r)).
+  { unfold wf_rel, permute_cols. cbn [r_attrs r_p r_rows]. rewrite !map_length, Hqlen.
+    repeat split; try assumption.
+    - apply nodup_map_nth; assumption.
+    - apply nodup_map_nth; [assumption | assumption | rewrite Hlen; exact Hqr].
+    - intros c Hc. apply in_map_iff in Hc as (i & <- & Hi). apply Hr. apply nth_In. rewrite Hlen. apply Hqr, Hi. }
+  split; [exact Hwf'|].
+  unfold abs. f_equal. cbn [permute_cols r_rows]. apply map_ext. intros v.
+  change (row_tuple (r_attrs (permute_cols q r)) (r_p (permute_cols q r)) v = row_tuple (r_attrs r) (r_p r) v).
+  unfold row_tuple, mktup. f_equal. apply asorted_ext; [apply asort_sorted | apply asort_sorted|].
+  intros nm. rewrite !tget_asort.
+  destruct (in_dec (list_eq_dec Z.eq_dec) nm (r_attrs r)) as [Hin|Hnin].
+  - destruct (col_exists r Hwf nm Hin) as (c & Hc).
+    fold (ra (permute_cols q r) v). fold (ra r v). unfold ra.
+    rewrite (col_tget r Hwf nm c v Hc).
+    apply (col_tget (permute_cols q r) Hwf' nm c v). apply (permute_cols_col q r nm c Hwf Hq), Hc.
+  - rewrite (nocol_tget r Hwf nm v Hnin). apply (nocol_tget (permute_cols q r) Hwf' nm v).
+    intros Hin. apply Hnin. cbn [permute_cols r_attrs] in Hin. apply in_map_iff in Hin as (i & <- & Hi).
+    apply nth_In. apply Hqr, Hi.
+Qed.
+
+(* joins see through the order in which either operand lists its stored columns *)
+Corollary join_ignores_column_order op a b qa qb :
+  wf_rel a -> wf_rel b -> is_perm qa (length (r_attrs a)) -> is_perm qb (length (r_attrs b)) ->
+  exists s s', join_rel op (permute_cols qa a) (permute_cols qb b) = JOk s' /\ join_rel op a b = JOk s /\ den s' = den s.
+Proof.
+  intros Ha Hb Hqa Hqb.
+  destruct (permute_cols_same_relation qa a Ha Hqa) as [Ha' Ea]. destruct (permute_cols_same_relation qb b Hb Hqb) as [Hb' Eb].
+  destruct (join_independent_of_layout op a (permute_cols qa a) b (permute_cols qb b) Ha Ha' Hb Hb' (eq_sym Ea) (eq_sym Eb)) as (s & s' & E1 & E2 & D).
+  exists s, s'. split; [exact E2|]. split; [exact E1 | symmetry; exact D].
+Qed.
